@@ -426,7 +426,13 @@ def call_builtin_class(I, cls, a, k):
         if a:
             if isinstance(a[0], SymSet):
                 return SymSet(a[0].m)
-            for x in I.iterate(a[0]):
+            items = I.iterate(a[0])
+            if any(isinstance(x, SymVal) for x in items):
+                ss = SymSet(z3.K(z3.IntSort(), z3.BoolVal(False)))
+                for x in items:
+                    set_add(I, ss, x)
+                return ss
+            for x in items:
                 set_add(I, s, x)
         return s
     if n == 'range':
@@ -486,13 +492,33 @@ def charstr_to_int(I, s):
     return mk(val, 'int')
 
 
+def to_symset(s):
+    """concrete set of ints as a z3 Array(Int -> Bool)."""
+    if isinstance(s, SymSet):
+        return s.m
+    m = z3.K(z3.IntSort(), z3.BoolVal(False))
+    for x in sorted(s.s):
+        if not isinstance(x, int):
+            raise _interp_mod().Unsupported('symbolic set of non-integers')
+        m = z3.Store(m, x, True)
+    return m
+
+
+def promote_set(s):
+    """turn a concrete set object into a symbolic one in place (identity and aliases preserved)."""
+    if isinstance(s, PySet):
+        m = to_symset(s)
+        s.__class__ = SymSet
+        s.m = m
+    return s
+
+
 def set_add(I, s, x):
+    if isinstance(s, PySet) and isinstance(x, SymVal):
+        promote_set(s)
     if isinstance(s, SymSet):
         s.m = z3.Store(s.m, to_term(x, 'int'), True)
         return
-    if isinstance(x, SymVal):
-        # promote to symbolic set of ints
-        raise _interp_mod().Unsupported('adding symbolic value to concrete set')
     s.s.add(x)
 
 
@@ -631,7 +657,11 @@ def builtin_attr(I, obj, name):
             def update(other):
                 if isinstance(S, PySet) and isinstance(other, PySet):
                     S.s.update(other.s)
-                elif isinstance(S, SymSet) and isinstance(other, SymSet):
+                elif isinstance(S, SymSet) and isinstance(other, (SymSet, PySet)):
+                    kq = z3.Int('k!upd')
+                    S.m = z3.Lambda([kq], z3.Or(z3.Select(S.m, kq), z3.Select(to_symset(other), kq)))
+                elif isinstance(S, PySet) and isinstance(other, SymSet):
+                    promote_set(S)
                     kq = z3.Int('k!upd')
                     S.m = z3.Lambda([kq], z3.Or(z3.Select(S.m, kq), z3.Select(other.m, kq)))
                 elif isinstance(S, PySet):
